@@ -22,7 +22,7 @@ from mc import tagger
 from mc.sched import all_orders
 
 ID = 'C05'
-RULE = ('(a) all contig layouts (words over small/large contigs with reads, length 0..n, with/without the unmapped bin) through the '
+RULE = ('(a) all contig layouts (words over small 5 kb / small 60 kb / large contigs with reads, length 0..n, with/without the unmapped bin) through the '
         'real job builder; (b) all BAM layouts x method x --no_rejects x single/--multiprocess x every completion order of the '
         'pool jobs; non-trivial = multiprocess run with >=3 jobs and an order other than submission order; '
         'states = runs of the tagger / job-builder, transitions = records compared')
@@ -32,15 +32,17 @@ ASSUMPTIONS = [
     'one free-running real-Pool run per tier guards this',
     'samtools is absent: pysam.merge / pysam.sort code paths are the ones executed',
     'reads are pre-tagged (SM, RX, BC ...), as in the repository test BAMs; name decoding is C04',
+    'one 10 500-fragment input (more than the default ejection interval) per mode drives the buffer-ejection branch inside the tagger',
 ]
-SMALL, LARGE = 5000, 120000
+SMALL, MEDIUM, LARGE = 5000, 60000, 120000   # MEDIUM is still below the 100 kb small-contig threshold
+LEN = {'S': SMALL, 'M': MEDIUM, 'L': LARGE}
 
 
 def bounds(tier):
     if tier == 'quick':
-        return {'job_builder_max_contigs': 7, 'bam_max_contigs': 3, 'contig_kinds': ['S+', 'L+', 'S0'], 'unmapped_pairs': [0, 1],
+        return {'job_builder_max_contigs': 6, 'bam_max_contigs': 3, 'contig_kinds': ['S+', 'M+', 'L+', 'S0'], 'unmapped_pairs': [0, 1],
                 'methods': ['nla', 'chic', 'qflag'], 'orders': 'all (<=24) for nla default; identity+reverse otherwise'}
-    return {'job_builder_max_contigs': 12, 'bam_max_contigs': 4, 'contig_kinds': ['S+', 'L+', 'S0', 'L0'], 'unmapped_pairs': [0, 1],
+    return {'job_builder_max_contigs': 8, 'bam_max_contigs': 4, 'contig_kinds': ['S+', 'M+', 'L+', 'S0', 'L0'], 'unmapped_pairs': [0, 1],
             'methods': ['nla', 'chic', 'qflag'], 'orders': 'all (<=120) for nla default; identity+reverse otherwise'}
 
 
@@ -53,7 +55,7 @@ class _Probe(Exception):
 def probe_jobs(layout, unmapped):
     """layout: string over 'S','L' -> list of jobs (each a list of contig names) the real code builds"""
     tm = tagger.tagger_module()
-    contigs = [(f'c{i}', SMALL if k == 'S' else LARGE) for i, k in enumerate(layout)]
+    contigs = [(f'c{i}', LEN[k]) for i, k in enumerate(layout)]
     listing = list(contigs) + ([('*', 0)] if unmapped else [])
 
     def fake_contigs(path, with_length=False):
@@ -111,7 +113,7 @@ def check_jobs(layout, unmapped):
 # ------------------------------------------------------------------ (b) end to end
 def build_bam(path, layout, n_unmapped):
     """layout: tuple of kinds 'S+','L+','S0','L0'. Returns truth: {name: class}"""
-    contigs = [(f'c{i}{k[0]}', SMALL if k[0] == 'S' else LARGE) for i, k in enumerate(layout)]
+    contigs = [(f'c{i}{k[0]}', LEN[k[0]]) for i, k in enumerate(layout)]
     b = Builder(contigs)
     truth = {}
     with_reads = [c for (c, l), k in zip(contigs, layout) if k.endswith('+')]
@@ -290,6 +292,8 @@ def shards(tier):
     for i in range(0, len(ls), G):
         out.append(('bams', ls[i:i + G]))
     out.append(('conformance', tier))
+    out.append(('big', 'single'))
+    out.append(('big', 'multi'))
     return out
 
 
@@ -297,17 +301,25 @@ def run_shard(shard, tier, acc):
     if shard[0] == 'jobs':
         n = bounds(tier)['job_builder_max_contigs']
         for k in range(0, n + 1):
-            for lay in itertools.product('SL', repeat=k):
+            for lay in itertools.product('SML', repeat=k):
                 for unmapped in (False, True):
                     case = {'kind': 'jobs', 'layout': ''.join(lay), 'unmapped': unmapped}
                     viols, njobs = check_jobs(case['layout'], unmapped)
-                    acc.case(case, transitions=max(njobs, 1), nontrivial=('S' in lay and 'L' in lay), outcome=f'jobs={min(njobs, 6)}')
+                    acc.case(case, transitions=max(njobs, 1), nontrivial=(('S' in lay or 'M' in lay) and 'L' in lay), outcome=f'jobs={min(njobs, 6)}')
                     for sig, d in viols:
                         acc.violation(sig, case, d)
         return
+    if shard[0] == 'big':
+        # more fragments than the default buffer-ejection interval (10 000): the ejection branch runs inside the tagger
+        case = {'kind': 'big', 'mode': shard[1], 'method': 'chic', 'no_rejects': False, 'order': None, 'fragments': 10500}
+        viols, info = run_big(case)
+        acc.case(case, transitions=21000, nontrivial=True, outcome=f'big:{shard[1]}:viol={len(viols)}')
+        for sig, d in viols:
+            acc.violation(sig, case, d)
+        return
     if shard[0] == 'conformance':
         # free-running pass with the real multiprocessing.Pool: the fake pool must not hide anything
-        for lay, um in ((('S+', 'L+', 'S+'), 1), (('L+', 'S+', 'S0', 'L+')[:bounds(tier)['bam_max_contigs']], 1)):
+        for lay, um in ((('S+', 'L+', 'S+'), 1), (('M+', 'M+', 'S+'), 1), (('L+', 'S+', 'S0', 'L+')[:bounds(tier)['bam_max_contigs']], 1)):
             case = {'kind': 'conformance', 'layout': list(lay), 'unmapped': um, 'method': 'nla', 'no_rejects': False, 'mode': 'multi',
                     'order': None}
             viols, info = _conformance(case)
@@ -357,6 +369,21 @@ def _report(acc, case, viols, info, nrec):
         acc.violation(sig, case, d)
 
 
+def run_big(case):
+    d = tempfile.mkdtemp(prefix='c05b_', dir='/dev/shm')
+    try:
+        b = Builder([('cL', 3000000), ('cS', 5000)])
+        truth = {}
+        for i in range(case['fragments']):
+            truth[b.pair('cL', 1000 + 200 * i, cell=1 + i % 3, umi='AAA', method='chic', mx='scCHIC384C8U3')] = 'valid'
+        truth[b.pair('cS', 1000, cell=1, umi='CCC', method='chic', mx='scCHIC384C8U3')] = 'valid'
+        inp_path = b.write(os.path.join(d, 'in.bam'))
+        inp = records(inp_path)
+        return run_on(d, inp_path, inp, truth, case)
+    finally:
+        shutil.rmtree(d, ignore_errors=True)
+
+
 def _conformance(case):
     d = tempfile.mkdtemp(prefix='c05c_', dir='/dev/shm')
     try:
@@ -373,4 +400,6 @@ def replay(case):
         return check_jobs(case['layout'], case['unmapped'])[0]
     if case['kind'] == 'conformance':
         return _conformance(case)[0]
+    if case['kind'] == 'big':
+        return run_big(case)[0]
     return run_case(case)[0]
